@@ -282,8 +282,16 @@ BlankOrComment(i, j) ==     \* is inp[i..j] a sequence of whitespace and complet
   ELSE IF Ch(i) = 123 /\ Ch(i + 1) = 123 /\ Ch(i + 2) = 45 /\ Ch(i + 3) = 45
        THEN LET k == SkipComment(i + 2) IN k # 0 /\ k - 1 <= j /\ BlankOrComment(k, j)
   ELSE FALSE
-\* text tokens carry their own whitespace, so a gap next to one can only be a comment
-GapOK(a, b, i, j) == IF a = "HTML" \/ b = "HTML" THEN CommentsOnly(i, j) ELSE BlankOrComment(i, j)
+\* Whitespace is skipped only in code mode, i.e. after a token that is not text and before any comment (a comment
+\* switches the lexer back to text mode, where whitespace belongs to a text token).  So a gap after a text token
+\* holds comments only, and any other gap is whitespace followed by comments.
+RECURSIVE WSThenComments(_, _)
+WSThenComments(i, j) == IF i > j THEN TRUE
+                        ELSE IF IsWS(Ch(i)) THEN WSThenComments(i + 1, j)
+                        ELSE CommentsOnly(i, j)
+HasComment(i, j) == \E k \in i..j : Ch(k) = 123 /\ Ch(k + 1) = 123 /\ Ch(k + 2) = 45 /\ Ch(k + 3) = 45
+GapOK(a, b, i, j) == IF a = "HTML" THEN CommentsOnly(i, j)
+                     ELSE WSThenComments(i, j) /\ (b = "HTML" => (i > j \/ HasComment(i, j)))
 GapsBlank(ts) == /\ \A k \in 1..Len(ts) - 1 : GapOK(ts[k].t, ts[k + 1].t, ts[k].e + 1, ts[k + 1].s - 1)
                  /\ Len(ts) > 0 => CommentsOnly(1, ts[1].s - 1)
 EOFAtEnd(ts) == \A k \in 1..Len(ts) : ts[k].t = "EOF" => (k = Len(ts) /\ ts[k].s = N + 1 /\ ts[k].e = N + 1)
